@@ -1246,3 +1246,62 @@ def iterator_loops(fn, region=None):
                     exits.append((b, s_))
         out.append((h, body, none_e, exits))
     return out
+
+
+# ------------------------------------------------------------------ value sources through Option/Result adaptor chains
+
+ADAPTORS = re.compile(r"(option::Option|result::Result)(::)?<.*>::(or|or_else|map|and_then|unwrap_or|unwrap_or_else|unwrap_or_default|ok_or|ok_or_else|copied|cloned|filter|xor|zip|max|min)$|cmp::Ord::(max|min)$")
+
+
+def chain_field_reads(fn, operand, depth=0, _seen=None):
+    """Fields (adt short name, field) read to produce `operand`, looking through assignments, trivial conversions and
+    Option/Result adaptor chains INCLUDING the return values of closures handed to those adaptors
+    (`a.or_else(|| b.map(|e| e.f)).and_then(g)`).  Unlike the deep origins this does not merge everything reachable
+    through `self`."""
+    prog = fn.prog
+    if _seen is None:
+        _seen = set()
+    out = set()
+    if depth > 6:
+        return out
+    # direct field steps on the operand's own place and on the places it was copied from
+    stack = [operand]
+    seen_l = set()
+    defs = fn.defs()
+    while stack:
+        o = stack.pop()
+        p = op_place(o)
+        if p is None:
+            if "fn" in o and o.get("fn") in prog.fns and prog.fns[o["fn"]].is_closure():
+                c = prog.fns[o["fn"]]
+                if c.id not in _seen:
+                    _seen.add(c.id)
+                    out |= chain_field_reads(c, {"c": [0, []]}, depth + 1, _seen)
+            continue
+        for (adt, var, fld) in field_steps(p):
+            if not adt.startswith(("core::", "std::", "alloc::", "(")):
+                out.add((adt.rsplit("::", 1)[-1], fld))
+        l = p[0]
+        if l in seen_l:
+            continue
+        seen_l.add(l)
+        for d in defs.get(l, ()):
+            if d[0] == "assign":
+                rv = d[4]
+                if rv["r"] == "agg" and rv.get("ak") == "closure" and rv["adt"] in prog.fns:
+                    c = prog.fns[rv["adt"]]
+                    if c.id not in _seen:
+                        _seen.add(c.id)
+                        out |= chain_field_reads(c, {"c": [0, []]}, depth + 1, _seen)
+                    continue
+                for o2 in operands_of_rvalue(rv):
+                    stack.append(o2)
+                if "p" in rv:
+                    stack.append({"c": rv["p"]})
+            elif d[0] == "call":
+                t = d[2]
+                callee = fn.callee_of(t) or ""
+                if TRIVIAL_CALLS.search(callee) or ADAPTORS.search(callee):
+                    for a in t["args"]:
+                        stack.append(a)
+    return out
